@@ -118,7 +118,7 @@ Proof.
             cut_inv n0 (nd s') /\ (role n <> LEADER -> role (nd s') <> LEADER) /\
             (commit (nd s') = commit n \/
              (role n = LEADER /\ commit n < commit (nd s') /\ majority (match_count (commit (nd s')) n0) n0 = true))) as HFR.
-  { intros s' Ho F. pose proof F as (ex & O & _ & C & M & _ & _ & Nl).
+  { intros s' Ho F. pose proof F as (ex & O & _ & C & M & _ & _ & Nl & _).
     cbn in O. rewrite O in Ho. pose proof (M eq_refl Ho) as M'. cbn in M', C, Nl. unfold mem_part in M'. injection M' as M1 M2 M3 M4.
     destruct (core_fields _ _ C) as (_ & R & _).
     split; [|split; [rewrite R; auto | left; exact M4]].
